@@ -13,7 +13,7 @@ Record pcase := mkCase {
   c_args : list str;
   c_ftab : list (str * option N);   (* strconv.ParseFloat on every candidate text of the case *)
   (* observed *)
-  c_err : option (str * bool);
+  c_err : option (str * bool * ekind);   (* message, errors.Is(err, ErrorParsing), kind as classified by the harness *)
   c_rem : list str;
   c_st1 : list ostate;
   c_warn : str
@@ -24,13 +24,14 @@ Definition pf_of (tab : list (str * option N)) (s : str) : option N :=
 
 (* what is compared *)
 Record mask := mkMask {
-  m_err : bool;      (* error presence, message and class *)
+  m_err : bool;      (* error presence, ErrorParsing class and kind *)
+  m_msg : bool;      (* exact error message *)
   m_rem : bool;      (* remaining *)
   m_val : bool;      (* option values *)
   m_called : bool;   (* Called / CalledAs *)
   m_warn : bool      (* Writer *)
 }.
-Definition mask_all := mkMask true true true true true.
+Definition mask_all := mkMask true true true true true true.
 
 (* maps are compared as sorted association lists (keys are unique) *)
 Fixpoint insert_kv (x : str * str) (l : list (str * str)) : list (str * str) :=
@@ -67,12 +68,13 @@ Definition check_case (m : mask) (c : pcase) : bool :=
   let r := run_case c in
   (negb (m_warn m) || str_eqb (concat (pr_warn r)) (c_warn c)) &&
   match pr_out r, c_err c with
-  | Err e, Some (msg, parsing) =>
-      negb (m_err m) || (str_eqb (e_msg e) msg && Bool.eqb (e_parsing e) parsing)
+  | Err e, Some (msg, parsing, k) =>
+      (negb (m_err m) || (Bool.eqb (e_parsing e) parsing && ekind_eqb (e_kind e) k)) &&
+      (negb (m_msg m) || str_eqb (e_msg e) msg)
   | Ok (st, rem), None =>
       (negb (m_rem m) || strs_eqb rem (c_rem c)) &&
       list_eqb (state_eqb m) (store st) (c_st1 c)
-  | _, _ => negb (m_err m) && negb (m_rem m) && negb (m_val m) && negb (m_called m)
+  | _, _ => false   (* success on one side, failure on the other *)
   end.
 
 Fixpoint mismatches_from (i : nat) (m : mask) (cs : list pcase) : list nat :=
@@ -108,3 +110,6 @@ Fixpoint tmismatches_from (i : nat) (cs : list tcase) : list nat :=
   | c :: cs' => if check_tcase c then tmismatches_from (S i) cs' else i :: tmismatches_from (S i) cs'
   end.
 Definition tmismatches := tmismatches_from 0.
+
+(* constructor-like helper used by the generated case files *)
+Definition E (m : str) (p : bool) (k : ekind) : str * bool * ekind := (m, p, k).
